@@ -224,7 +224,11 @@ func c13RunSession(hist []c13Ev) *c13SessResult { return c13RunSessionStyle(hist
 
 func c13RunSessionStyle(hist []c13Ev, style int) *c13SessResult {
 	c13Style = c13Styles[style]
-	defer func() { c13Style = c13Styles[0] }()
+	defChans := c13Chans
+	if c13Style.Chans[0] != "" {
+		c13Chans = c13Style.Chans
+	}
+	defer func() { c13Style, c13Chans = c13Styles[0], defChans }()
 	r := &c13SessResult{FailAt: -2}
 	o := RunSeq(vx.Options{}, func(env *vx.Env) {
 		s, err := StartSession(env, "me", nil, func(c *client.Conn) { c.EnableStateTracking() })
